@@ -29,6 +29,7 @@ type thread struct {
 	waitOn  interface{}
 	lastEv  *event
 	crashed bool
+	held    []int // ids of the mutexes this thread holds
 }
 
 type mutexState struct {
@@ -61,10 +62,14 @@ type event struct {
 	prev  *event // program-order predecessor
 	match *event // unlock for a lock
 	src   *event // send / close that a channel receive observed
+	locks []int  // mutexes held by the thread at this event (lockset)
 }
 
 func (i *interpreter) logEvent(th *thread, kind string, obj, n int, name string, fr *frame) *event {
 	e := &event{id: len(i.events), th: th.id, kind: kind, obj: obj, n: n, name: name, prev: th.lastEv}
+	if (kind == "read" || kind == "write") && len(th.held) > 0 {
+		e.locks = append([]int{}, th.held...)
+	}
 	if fr != nil {
 		e.fn = fr.fn.String()
 	}
@@ -293,6 +298,7 @@ func (i *interpreter) mutexLock(fr *frame, p *value) {
 		i.block(th, m)
 	}
 	m.holder = th
+	th.held = append(th.held, m.id)
 	i.logEvent(th, "lock", m.id, 0, m.name, fr)
 }
 
@@ -303,6 +309,12 @@ func (i *interpreter) mutexUnlock(fr *frame, p *value) {
 		panic(targetPanic{v: iface{t: types.Typ[types.String], v: "fatal error: sync: unlock of unlocked mutex"}})
 	}
 	m.holder = nil
+	for k := len(th.held) - 1; k >= 0; k-- {
+		if th.held[k] == m.id {
+			th.held = append(th.held[:k], th.held[k+1:]...)
+			break
+		}
+	}
 	e := i.logEvent(th, "unlock", m.id, 0, m.name, fr)
 	// match with the latest unmatched lock on this mutex
 	for k := len(i.events) - 2; k >= 0; k-- {
@@ -509,12 +521,23 @@ func fieldKey(t types.Type, field int) (string, bool) {
 
 // trackFieldAddr is called for FieldAddr results.
 func (i *interpreter) trackFieldAddr(fr *frame, instr *ssa.FieldAddr, obj *value, cell *value) {
-	if len(i.trackField) == 0 {
+	if len(i.trackField) == 0 && len(i.cfg.TrackStructsOf) == 0 {
 		return
 	}
 	key, ok := fieldKey(instr.X.Type(), instr.Field)
-	if !ok || !i.trackField[key] {
+	if !ok {
 		return
+	}
+	if !i.trackField[key] {
+		hit := false
+		for _, pre := range i.cfg.TrackStructsOf {
+			if strings.HasPrefix(key, pre+".") {
+				hit = true
+			}
+		}
+		if !hit {
+			return
+		}
 	}
 	if _, ok := i.cellLoc[cell]; ok {
 		return
@@ -648,9 +671,18 @@ func (i *interpreter) relevantEvents() ([]*event, map[*event]*event) {
 			users[e.obj][e.th] = true
 		}
 	}
+	written := map[int]bool{}
+	for _, e := range i.events {
+		if e.kind == "write" {
+			written[e.obj] = true
+		}
+	}
 	keep := func(e *event) bool {
 		if e.kind == "lock" || e.kind == "unlock" {
 			return len(users[e.obj]) > 1
+		}
+		if e.kind == "read" {
+			return written[e.obj] // a location nobody writes cannot race
 		}
 		return true
 	}
@@ -945,6 +977,9 @@ func (i *interpreter) findRaces(filter func(loc string) bool) []racePair {
 				if filter != nil && !filter(x.name) {
 					continue
 				}
+				if commonLock(x.locks, y.locks) {
+					continue // both inside critical sections of one mutex: never adjacent
+				}
 				key := fmt.Sprintf("%s|%s:%s|%s:%s", locBase(x.name), x.kind, x.fn, y.kind, y.fn)
 				if seen[key] {
 					continue
@@ -964,6 +999,17 @@ func (i *interpreter) findRaces(filter func(loc string) bool) []racePair {
 		}
 	}
 	return out
+}
+
+func commonLock(a, b []int) bool {
+	for _, x := range a {
+		for _, y := range b {
+			if x == y {
+				return true
+			}
+		}
+	}
+	return false
 }
 
 func locBase(name string) string {
